@@ -183,6 +183,18 @@ def unfold_wf(E, D):
         return
     done.append(D)
     E.assume(mk_bool(hwfp(D) == hwf(E, D)))
+    # consequences for a branch obtained by a store at a symbolic nibble (valid slot by slot; they spare the solver
+    # the case split over the nibble): references stay well formed, and the number of entries does not drop when the
+    # stored reference is not blank (it drops by at most one when it is)
+    BNHt = blank_node_hash(E)
+    for (Dn, Dp, js, rv) in E.ghost.get("sym_stores", []):
+        if Dn.eq(D):
+            ok_rv = z3.And(z3.Implies(HRef.is_RHash(rv), z3.And(z3.Length(HRef.rhash(rv)) == 32, HRef.rhash(rv) != BNHt)),
+                           z3.Implies(HRef.is_REmb(rv), z3.And(hwfp(HRef.remb(rv)), z3.Not(HNode.is_HBlank(HRef.remb(rv))))))
+            E.assume(mk_bool(z3.Implies(z3.And(hwf_children(E, Dp), ok_rv), hwf_children(E, Dn))))
+            E.assume(mk_bool(z3.Implies(z3.Not(HRef.is_RBlank(rv)), entry_count(Dn) >= entry_count(Dp))))
+            E.assume(mk_bool(entry_count(Dn) >= entry_count(Dp) - 1))
+            unfold_wf(E, Dp)
     # definitional equations of allnib on the constructors of the node's path (e.g. a path built as (i,) ++ p)
     from contracts.seqspec import allnib_of
     from contracts.nibbles_c import B2N
@@ -225,6 +237,13 @@ def hwf(E, D, depth=1):
                                             z3.Not(HRef.is_RBlank(HNode.echild(D))))),
         # a branch keeps at least two of its 17 entries (otherwise it is normalised away)
         z3.Implies(HNode.is_HBranch(D), z3.And(cnt >= 2, *[ok_ref(child(D, i)) for i in range(16)])))
+
+
+def entry_count(D):
+    cnt = z3.If(z3.Length(HNode.bval(D)) > 0, 1, 0)
+    for i in range(16):
+        cnt = cnt + z3.If(HRef.is_RBlank(child(D, i)), 0, 1)
+    return cnt
 
 
 def hwf_children(E, D):
@@ -331,6 +350,22 @@ def unfold_hlk(E, D, k, depth=1):
                        z3.If(HNode.is_HExt(D), z3.If(z3.PrefixOf(ep, k), hlk(ext_next, tail(k, z3.Length(ep))), empty),
                              z3.If(lk == 0, HNode.bval(D), br))))
     E.assume(mk_bool(hlk(D, k) == body))
+    # consequences of the unfolding for a branch that was read / written at a symbolic nibble j (they spare the solver
+    # the 16 x 16 case split): the lookup goes through slot j iff the key starts with j, and a store at j leaves
+    # every other lookup as it was
+    for (Dr, jr, chain) in E.ghost.get("sym_reads", []):
+        if Dr.eq(D):
+            E.assume(mk_bool(z3.Implies(z3.And(lk > 0, k[0] == jr), hlk(D, k) == hlk(deref(E, chain), kt))))
+    for (Dn, Dp, js, rv) in E.ghost.get("sym_stores", []):
+        if Dn.eq(D):
+            E.assume(mk_bool(z3.Implies(z3.And(lk > 0, k[0] == js), hlk(D, k) == hlk(deref(E, rv), kt))))
+            E.assume(mk_bool(z3.Implies(z3.And(lk > 0, k[0] != js), hlk(D, k) == hlk(Dp, k))))
+            E.assume(mk_bool(z3.Implies(lk == 0, hlk(D, k) == hlk(Dp, k))))
+            if depth > 0:
+                unfold_hlk(E, Dp, k, depth - 1)
+                X = resolve_ref(rv)
+                if X is not None:
+                    unfold_hlk(E, X, kt, depth - 1)
     # a blank child holds nothing (definition of hlk at HBlank, at the two keys a step can continue with)
     E.assume(mk_bool(z3.And(hlk(HNode.HBlank, kt) == empty, hlk(HNode.HBlank, tail(k, z3.Length(ep))) == empty)))
     if depth > 0 and not is_constructor(D):
@@ -454,7 +489,12 @@ def branch_slot_any(E, lst, j):
     t = ref_of(lst.items[15])
     for i in reversed(range(15)):
         t = z3.If(jt == i, ref_of(lst.items[i]), t)
-    return SRef(z3.simplify(t))
+    t = z3.simplify(t)
+    try:
+        E.ghost.setdefault("sym_reads", []).append((z3.simplify(alpha(lst)), jt, t))
+    except Unsupported:
+        pass
+    return SRef(t)
 
 
 def branch_slot_store(E, lst, j, val):
@@ -466,8 +506,14 @@ def branch_slot_store(E, lst, j, val):
         return False
     E.check_mut(lst)
     rv = ref_of(val)
+    try:
+        Dprev = z3.simplify(alpha(lst))
+    except Unsupported:
+        Dprev = None
     for p in range(16):
         lst.items[p] = SRef(z3.simplify(z3.If(jt == p, rv, ref_of(lst.items[p]))))
+    if Dprev is not None:
+        E.ghost.setdefault("sym_stores", []).append((z3.simplify(alpha(lst)), Dprev, jt, z3.simplify(rv)))
     return True
 
 
